@@ -1,3 +1,4 @@
+CONSTANT PollutedDedup = FALSE
 SPECIFICATION TSpec
 INVARIANT Report
 CHECK_DEADLOCK FALSE
